@@ -78,7 +78,9 @@ void PoolWakeState::wakeRange(int32_t count) {
   // immediately without sleeping.
   int32_t lastGroup = (count - 1) / groupSize_;
   for (int32_t g = 0; g <= lastGroup && g < numGroups_; ++g) {
-    uint64_t mask = groupStates_[static_cast<size_t>(g)].sleepMask.load(std::memory_order_relaxed);
+    uint64_t groupMask =
+        groupStates_[static_cast<size_t>(g)].sleepMask.load(std::memory_order_relaxed);
+    uint64_t mask = groupMask;
     if (g == lastGroup) {
       int32_t bitsInLastGroup = count - g * groupSize_;
       if (bitsInLastGroup < 64) {
@@ -94,7 +96,11 @@ void PoolWakeState::wakeRange(int32_t count) {
     } else {
       // At least one worker is parked — need a real wake. Wake just
       // the parked ones (bumpAndWakeN counts).
-      int32_t numSleepers = detail::countSetBits(mask);
+      // All threads of a group wait on one futex and the kernel picks which waiters to
+      // wake, so waking only as many as are targeted could wake the wrong ones and leave a
+      // targeted ring owner parked until its timeout. Wake every sleeper of the group; the
+      // untargeted ones find no work and park again.
+      int32_t numSleepers = detail::countSetBits(groupMask);
       waiter.bumpAndWakeN(numSleepers, groupSize_);
     }
   }
@@ -154,7 +160,9 @@ bool PoolWakeState::cascadeWakeSeed(int32_t count) {
   // get prompt futex wakes. The extra syscalls are negligible — they only
   // fire when threads are actually sleeping.
   for (int32_t g = 0; g <= lastGroup; ++g) {
-    uint64_t mask = groupStates_[static_cast<size_t>(g)].sleepMask.load(std::memory_order_relaxed);
+    uint64_t groupMask =
+        groupStates_[static_cast<size_t>(g)].sleepMask.load(std::memory_order_relaxed);
+    uint64_t mask = groupMask;
     if (g == lastGroup) {
       int32_t bitsInLastGroup = count - g * groupSize_;
       if (bitsInLastGroup < 64) {
@@ -165,7 +173,11 @@ bool PoolWakeState::cascadeWakeSeed(int32_t count) {
     if (mask == 0) {
       waiter.bump();
     } else {
-      int32_t numSleepers = detail::countSetBits(mask);
+      // All threads of a group wait on one futex and the kernel picks which waiters to
+      // wake, so waking only as many as are targeted could wake the wrong ones and leave a
+      // targeted ring owner parked until its timeout. Wake every sleeper of the group; the
+      // untargeted ones find no work and park again.
+      int32_t numSleepers = detail::countSetBits(groupMask);
       waiter.bumpAndWakeN(numSleepers, groupSize_);
     }
   }
